@@ -43,6 +43,17 @@ def run(ctx):
         ctx.violation("spelling", "C08 fails on the real tool: %s\nreplay: bin/harness analyze -dir corpus/c08\n" % b)
     # regression programs of repaired findings (error wrapper with several results; checks after nested loops)
     markers.corpus_modules(ctx, "c08r", "guarded results: repaired findings")
+    # M13: how far a check reaches -- real propagateRichChecks == extracted model on random control-flow graphs
+    from . import richflow_suite as RF
+    rf = RF.correspond(ctx.seed * 15485867 + 8, 3000 if ctx.tier == "quick" else 60000)
+    ctx.obligation("rich-check propagation correspondence ran", not rf["errors"])
+    ctx.obligation("correspondence (propagation of rich check effects): real propagateRichChecks == extracted model M13 on %d control-flow graphs (%d with back edges; %d effect occurrences kept; no panic, the model always stabilises)" % (
+        rf["n"], rf["with_loop"], rf["kept"]), not rf["errors"] and not rf["mism"] and not rf["panics"] and not rf["nofuel"])
+    ctx.coverage.update({"richflow_graphs": rf["n"]})
+    for e in rf["errors"][:1]:
+        ctx.violation("richflow-suite", e, found_input=False)
+    for (c, a, b) in rf["mism"][:2]:
+        ctx.violation("richflow", "propagateRichChecks and model M13 disagree on this control-flow graph: theorem C08_rich_checks_reach_exactly_where_not_lost (an effect is dropped exactly where some path from its creation invalidates it) no longer speaks about the code; no program with an unreported unguarded dereference or a reported guarded one was found among the generated ones\n%s\neffects at the end of each block, real:  %s\n                                 model: %s\n" % (RF.describe(c), a, b), found_input=False)
     # M11: the guard-nonce set operations of package guard == model/Nonce.v on random operation sequences
     from . import nonce_suite as NS
     nr = NS.correspond(ctx.seed * 104729 + 8, 2000 if ctx.tier == "quick" else 60000)
